@@ -13,9 +13,7 @@ open Eos.World Eos.DepCache Eos.Machine
 
 /-! ## Well-formedness hypotheses -/
 
-def _root_.Eos.World.Kind.isSolsys : Kind → Bool
-  | .ship | .drone | .fighter => true
-  | _ => false
+-- `Kind.isSolsys` (ship / drone / fighter) lives in `EosModel/WorldMicro.lean`: the executable `stepOKb` uses it.
 
 def _root_.Eos.World.Kind.isModule : Kind → Bool
   | .moduleHigh | .moduleMid | .moduleLow => true
